@@ -10,10 +10,16 @@ RULE = ("Hypothesis draws the structure - coefficient-vector length 1..60 (thoro
         "table, float32 ndarray, list, tuple, list of Python ints; where the routine only reads them also an int64 ndarray), Jacobi (alpha,beta) incl. pairs on and next to alpha+beta = 0, -1, the Q2d (n,m) "
         "set up to n = 20, |m| = 12 (thorough 40, 24) (distinct pairs in any "
         "order: cosine-only, sine-only, mixed, with / without m=0, unequal radial lengths per azimuthal order, "
-        "azimuthal orders present in only one family), coordinate shape (python float, numpy scalar, 0-D, 1-D, 2-D), coordinate dtype "
+        "azimuthal orders present in only one family, every drawn (n, |m|) given to both families, complete radial sets n = 0..N of a few orders "
+        "in both families) and the value pattern of its coefficients (independent; the sine coefficient of an (n, |m|) exactly equal to the cosine "
+        "coefficient; one constant; all ones), for hand-packed tables also the sine table as equal values in separate objects / the same row objects "
+        "/ the very table object given as cosine table, and the m = 0 vector being the object of the m = 1 cosine row; coordinate shape (python float, numpy scalar, 0-D, 1-D, 2-D), coordinate dtype "
         "(float64, float32, for Jacobi complex128) and memory layout (C, Fortran, transposed view, strided view), the entry "
         "point (jacobi_sum_clenshaw plain / with a caller-supplied alphas buffer / row [0][0] of jacobi_sum_clenshaw_der; "
-        "clenshaw_qbfs, clenshaw_qbfs_der, compute_z_zprime_Qbfs / _Qcon / _Q2d), a history (nothing, or an earlier "
+        "clenshaw_qbfs, clenshaw_qbfs_der, compute_z_zprime_Qbfs / _Qcon / _Q2d; clenshaw_q2d / clenshaw_q2d_der for one azimuthal order, read as "
+        "their documentation says), for every documented alphas= workspace (jacobi_sum_clenshaw, jacobi_sum_clenshaw_der, clenshaw_qbfs, "
+        "clenshaw_qbfs_der, clenshaw_q2d, clenshaw_q2d_der) whether the caller supplies it - then one buffer serves every call of the case (other "
+        "coefficients in between), zero-filled, or holding 3.25 / NaN where the unchanged routine assigns every row -, a history (nothing, or an earlier "
         "single-precision call / a call with other coefficients), for lstsq the "
         "number of modes (1..36), grid, mode kind (random, Zernike, Hermite, Legendre, monomials; real or complex), the "
         "pattern of NaN / +inf / -inf samples (random, row+column, outside the disc, and valid samples only on a "
@@ -22,7 +28,8 @@ RULE = ("Hypothesis draws the structure - coefficient-vector length 1..60 (thoro
         "coefficient values and coordinates are expanded; an overall decimal exponent of the data (1, 1e-9, 1e-12, 1e-17, 1e-20, 1e-30, 1e6, 1e30; "
         "within the float32 range where single precision takes part): of the coefficients of every sum, for sum_of_2d_modes of the weights, of the "
         "modes, or of both in opposite directions, for lstsq of the data and (separately) of all modes alike, for Interferogram.pvr of the heights; sum_of_2d_modes also with modes that "
-        "are NaN at a quarter of the samples (the sum is NaN there and right elsewhere); lstsq also with modes that hold NaN / +-inf / 1e300 / a mixture "
+        "are NaN at a quarter of the samples (the sum is NaN there and right elsewhere) and with one mode array object given at two places of the sequence "
+        "(with independent or equal weights); lstsq also with the data being the very array object of one of the modes (the fit is that unit vector), lstsq also with modes that hold NaN / +-inf / 1e300 / a mixture "
         "at the samples the fit is told to ignore (all modes, or one of them).  Oracle: the explicit sum  sum_k c_k * mode_k  built by the "
         "harness from the scalar mode functions (jacobi, Qbfs, Qcon, Q2d, zernike_nm) or from the mode arrays "
         "themselves (sum_of_2d_modes); structural laws of the Q2d coefficient packer; for lstsq the synthesising "
@@ -173,6 +180,16 @@ def pt_class(spec):
     return spec[0] if spec[0] in ('pyfloat', 'npscalar') else 'ndim%d' % len(spec[1])
 
 
+# caller-supplied workspaces (alphas=): what the buffer holds when it is handed over.  'zeros' is what the library would allocate
+# itself; 'junk' / 'nan' only for the routines whose unchanged code assigns every row of the buffer ('array to store the alpha
+# sums in'), so what it held before cannot matter.  One buffer serves every call of a case: the second use must be as right as the first.
+WS_FILLS = {'zeros': 0.0, 'junk': 3.25, 'nan': float('nan')}
+
+
+def workspace(fill, shape, dtype):
+    return np.full(tuple(int(v) for v in shape), WS_FILLS[fill], dtype=np.result_type(dtype, np.float32))
+
+
 def _guard(ctx, cls, fn, *a, **k):
     try:
         return ctx.call(fn, *a, **k)
@@ -228,7 +245,10 @@ def strat_tensor(tier):
         # magnitude: the weights, the modes, or both in opposite directions (sum of order 1) carry the decimal exponent
         'wexp': wexps, 'scaled': st.sampled_from(['weights', 'weights', 'modes', 'opposite']),
         # the modes are NaN at some samples (outside an aperture): the sum is NaN there and right everywhere else
-        'nanpix': st.sampled_from([False, False, False, True])})
+        'nanpix': st.sampled_from([False, False, False, True]),
+        # the same mode given twice: the last mode is the first one again (for list / tuple input the very same array object), with an
+        # independent or with exactly the same weight
+        'dup': st.sampled_from(['none', 'none', 'none', 'mode', 'mode+weight'])})
 
 
 def check_tensor(case, ctx):
@@ -261,13 +281,23 @@ def check_tensor(case, ctx):
     if nanpix:
         hole = U.rng_of(case['seed'], 4).uniform(0, 1, shape) < 0.25
         modes[:, hole] = np.nan
+    dup = case.get('dup', 'none') if k > 1 else 'none'
+    if dup != 'none':
+        modes[k - 1] = modes[0]
+        if dup == 'mode+weight':
+            w[k - 1] = w[0]
     modes = U.relayout(modes.astype(dtype), layout)
     cls = coef_class(w)
-    ctx.nt(cls != 'dense' or shape[0] != shape[-1] or dtype != 'float64' or layout != 'C' or container != 'array' or history != 'none' or e != 0 or nanpix)
+    ctx.nt(cls != 'dense' or shape[0] != shape[-1] or dtype != 'float64' or layout != 'C' or container != 'array' or history != 'none' or e != 0 or nanpix
+           or dup != 'none')
+    ctx.label('same-mode-twice:' + dup)
     ctx.label(cls, 'ndim%d' % len(shape), container, dtype, 'k==rows' if k == shape[0] else 'k!=rows', 'layout:' + layout,
               'history:' + history, 'len>=13' if k >= 13 else 'len<13', 'big' if int(np.prod(shape)) > 2 ** 12 else 'small',
               exp_label(e), 'scaled:' + (scaled if e else 'nothing'), 'modes-nan-at-some-samples' if nanpix else 'modes-finite')
-    arg_m = {'list': [m for m in modes], 'list-weights': [m for m in modes], 'tuple': tuple(m for m in modes)}.get(container, modes)
+    rows = [m for m in modes]
+    if dup != 'none':
+        rows[k - 1] = rows[0]                            # one array object at two places of the sequence
+    arg_m = {'list': rows, 'list-weights': rows, 'tuple': tuple(rows)}.get(container, modes)
     arg_w = {'list-weights': [float(v) for v in w], 'tuple': tuple(float(v) for v in w), 'int-weights': w.astype(np.int64)}.get(container, w.copy())
     if history == 'single-first':
         _guard(ctx, cls, P.sum_of_2d_modes, modes.astype('complex64' if dtype.startswith('complex') else 'float32'), w.astype(np.float32))
@@ -307,7 +337,8 @@ def strat_jacobi(tier):
                    st.tuples(U.nice_float(-0.95, 0.95), st.sampled_from([5.5e-17, -1.1e-16, 1e-15, 1e-12, -1e-9, 1e-6])).map(lambda t: [t[0], -t[0] + t[1]]),
                    st.tuples(U.nice_float(-0.95, -0.05), st.sampled_from([0.0, 1.1e-16, -2.2e-16, 1e-12, -1e-9])).map(lambda t: [t[0], -1.0 - t[0] + t[1]]))
     return st.fixed_dictionaries({'coefs': coef_spec(LMAX[tier]), 'ab': ab, 'x': point_spec(DMAX[tier]),
-                                  'container': st.sampled_from(CONTAINERS_READ_ONLY), 'via': st.sampled_from(['plain', 'plain', 'alphas-buffer', 'der-row0']),
+                                  'container': st.sampled_from(CONTAINERS_READ_ONLY), 'via': st.sampled_from(['plain', 'plain', 'alphas-buffer', 'alphas-reused', 'alphas-reused', 'der-row0', 'der-alphas']),
+                                  'fill': st.sampled_from(['zeros', 'junk', 'nan']),
                                   'xdtype': st.sampled_from(['float64', 'float64', 'float64', 'float32', 'complex128']), 'layout': U.layouts,
                                   'history': st.sampled_from(['none', 'none', 'single-first', 'other-ab']), 'seed': U.seeds, 'wexp': wexps})
 
@@ -333,11 +364,33 @@ def check_jacobi(case, ctx):
     if e:
         cls += ':coefficients-1e%+d' % e
 
+    fill = case.get('fill', 'junk')
+    if via in ('alphas-reused', 'der-alphas'):
+        ctx.label('workspace:' + fill)
+    if via == 'der-alphas' and len(s) < 2:
+        via = 'der-row0'        # the documented shape (j+1, len(s), ...) has no row [.][1] for a single coefficient
+    shared = {}                 # the one workspace of this case, by shape (every call of a case has the same shape)
+
+    def ws(shape, xx):
+        if shape not in shared:
+            shared[shape] = workspace(fill, shape, np.asarray(x).dtype)
+            ctx.tally('workspaces allocated', 1)
+        else:
+            ctx.tally('workspace re-used', 1)
+        return shared[shape]
+
     def fast(sarg, aa, bb, xx):
         if via == 'alphas-buffer':
             # 'array to store the alpha sums in': every row is assigned, so what the buffer held before is irrelevant
             buf = np.full((len(sarg),) + np.shape(xx), 3.25, dtype=np.result_type(np.asarray(xx).dtype, np.float32))
             return _guard(ctx, cls, P.jacobi_sum_clenshaw, sarg, aa, bb, xx, alphas=buf)
+        if via == 'alphas-reused':
+            # the same buffer for every call of the case; 'alphas[0] contains the sum and is returned', so the result is copied out
+            # before the buffer is used again
+            return np.array(_guard(ctx, cls, P.jacobi_sum_clenshaw, sarg, aa, bb, xx, alphas=ws((len(sarg),) + np.shape(xx), xx)), copy=True)
+        if via == 'der-alphas':
+            # only the returned array is read (the unchanged routine returns its own array and leaves the caller's alone)
+            return np.array(_guard(ctx, cls, jacobi_sum_clenshaw_der, sarg, aa, bb, xx, j=1, alphas=ws((2, len(sarg)) + np.shape(xx), xx))[0][0], copy=True)
         if via == 'der-row0':
             return _guard(ctx, cls, jacobi_sum_clenshaw_der, sarg, aa, bb, xx, j=1)[0][0]
         return _guard(ctx, cls, P.jacobi_sum_clenshaw, sarg, aa, bb, xx)
@@ -370,10 +423,12 @@ def check_jacobi(case, ctx):
 
 # ---- Qbfs / Qcon -----------------------------------------------------------------------------------
 def strat_q1d(tier):
-    return st.fixed_dictionaries({'fn': st.sampled_from(['clenshaw_qbfs', 'clenshaw_qbfs_der', 'compute_z_zprime_Qbfs', 'compute_z_zprime_Qcon']),
+    return st.fixed_dictionaries({'fn': st.sampled_from(['clenshaw_qbfs', 'clenshaw_qbfs', 'clenshaw_qbfs_der', 'compute_z_zprime_Qbfs', 'compute_z_zprime_Qcon']),
                                   'coefs': coef_spec(LMAX[tier]), 'u': point_spec(DMAX[tier]).filter(lambda s: s[0] == 'array'),
                                   'container': st.sampled_from(CONTAINERS), 'udtype': st.sampled_from(['float64', 'float64', 'float64', 'float32']),
-                                  'layout': U.layouts, 'history': st.sampled_from(['none', 'none', 'single-first', 'other-fn']), 'seed': U.seeds, 'wexp': wexps})
+                                  'layout': U.layouts, 'history': st.sampled_from(['none', 'none', 'single-first', 'other-fn']), 'seed': U.seeds, 'wexp': wexps,
+                                  # the documented alphas= workspace of clenshaw_qbfs / clenshaw_qbfs_der: not given, or one buffer for every call
+                                  'ws': st.sampled_from(['none', 'zeros', 'zeros', 'junk', 'nan'])})
 
 
 def check_q1d(case, ctx):
@@ -388,19 +443,41 @@ def check_q1d(case, ctx):
     e = wexp_of(case, single=single or history == 'single-first', integer=case['container'] in ('int-list', 'array-int'))
     arg, c = contain(c0 * 10.0 ** e, case['container'])
     cls, pcls, fn = coef_class(c), pt_class(case['u']), case['fn']
-    ctx.nt(cls != 'dense' or pcls != 'ndim1' or case['container'] != 'array' or history != 'none' or udtype != 'float64' or layout != 'C' or e != 0)
+    ctx.nt(cls != 'dense' or pcls != 'ndim1' or case['container'] != 'array' or history != 'none' or udtype != 'float64' or layout != 'C' or e != 0
+           or (case.get('ws', 'none') != 'none' and fn.startswith('clenshaw')))
     ctx.label(fn, cls, pcls, 'len=%s' % (len(c) if len(c) < 4 else ('4+' if len(c) < 13 else '13+')), 'container:' + case['container'],
               'u:' + udtype, 'layout:' + layout, 'history:' + history, exp_label(e))
     if e:
         cls += ':coefficients-1e%+d' % e
     usq = u * u
     ud = f64(u)
+    # clenshaw_qbfs assigns every row of its workspace (any previous content); clenshaw_qbfs_der documents rows it leaves at their
+    # initial zero (derivatives above the degree), so its workspace starts zeroed and is then re-used as it comes back; a single
+    # coefficient has no row [.][1] in the documented shape (j+1, len(cs), ...), so it goes without
+    wsk = case.get('ws', 'none')
+    if fn == 'clenshaw_qbfs_der':
+        wsk = 'none' if len(c) < 2 else 'zeros' if wsk != 'none' else wsk
+    elif fn != 'clenshaw_qbfs':
+        wsk = 'none'
+    ctx.label('workspace:' + wsk)
+    if wsk != 'none':
+        cls += ':alphas-workspace-' + wsk
+    shared = {}
+
+    def ws(name, carg, uusq):
+        if name != fn or wsk == 'none':
+            return {}
+        if 'buf' in shared:
+            ctx.tally('workspace re-used', 1)
+        else:
+            shared['buf'] = workspace(wsk, ((2,) if fn == 'clenshaw_qbfs_der' else ()) + (len(carg),) + np.shape(uusq), usq.dtype)
+        return {'alphas': shared['buf']}
 
     def fast(name, carg, uu, uusq):
         if name == 'clenshaw_qbfs':
-            return _guard(ctx, cls, Q.clenshaw_qbfs, carg, uusq)
+            return _guard(ctx, cls, Q.clenshaw_qbfs, carg, uusq, **ws(name, carg, uusq))
         if name == 'clenshaw_qbfs_der':
-            al = _guard(ctx, cls, Q.clenshaw_qbfs_der, carg, uusq, j=1)
+            al = _guard(ctx, cls, Q.clenshaw_qbfs_der, carg, uusq, j=1, **ws(name, carg, uusq))
             ctx.require(np.shape(al)[:1] == (2,) and np.shape(al)[1] >= 2, name + ':alphas-shape', 'alphas has shape %s' % (np.shape(al),))
             return (uusq * (1 - uusq)) * 2 * (al[0][0] + al[0][1])       # as documented for the alphas of this function
         res = _guard(ctx, cls, getattr(Q, name), carg, uu, uusq)
@@ -438,7 +515,8 @@ def check_q1d(case, ctx):
 def strat_q2d(tier):
     N, M = {'quick': (20, 12), 'thorough': (40, 24)}[tier]
     n = st.one_of(st.integers(0, 3), st.integers(0, 8), st.integers(0, N))
-    content = st.sampled_from(['mixed', 'paired', 'paired', 'cos', 'sin', 'cos+m0', 'sin+m0', 'm0', 'disjoint'])
+    content = st.sampled_from(['mixed', 'paired', 'paired', 'cos', 'sin', 'cos+m0', 'sin+m0', 'm0', 'disjoint', 'twin', 'twin-dense', 'twin-dense'])
+    am = st.one_of(st.sampled_from([1, 1, 1, 2, 3]), st.integers(1, M))
 
     def pairs(kind):
         if kind == 'cos':
@@ -453,12 +531,21 @@ def strat_q2d(tier):
             m = st.just(0)
         elif kind == 'disjoint':   # cosine terms at odd |m|, sine terms at even |m|: every order lives in one family only
             m = st.integers(1, M).map(lambda v: v if v % 2 else -v)
+        elif kind == 'twin':       # every drawn (n, |m|) is given to both families (equal radial lengths per order), in any order
+            base = st.lists(st.tuples(st.one_of(st.integers(0, 6), n), am), min_size=1, max_size=7, unique_by=lambda p: (p[0], p[1]))
+            return base.flatmap(lambda b: st.permutations([[nn, mm] for nn, mm in b] + [[nn, -mm] for nn, mm in b]))
+        elif kind == 'twin-dense':  # complete radial sets n = 0..N of a few azimuthal orders, both families (and sometimes m = 0)
+            sets = st.lists(st.tuples(st.one_of(am, st.just(0)), st.integers(0, 8)), min_size=1, max_size=3, unique_by=lambda p: p[0])
+            return sets.flatmap(lambda b: st.permutations([[nn, sg * mm] for mm, N_ in b for sg in ((1, -1) if mm else (1,)) for nn in range(N_ + 1)]))
         elif kind == 'paired':     # few azimuthal orders, so cosine and sine partners of the same |m| both occur
             m = st.sampled_from([-2, -1, 1, 2, 0, -3, 3])
         else:
             m = st.one_of(st.integers(-3, 3), st.integers(-M, M))
         return st.lists(st.tuples(n, m).map(list), min_size=1, max_size=14, unique_by=lambda p: (p[0], p[1]))
     return st.fixed_dictionaries({'nms': content.flatmap(pairs), 'zero': st.sampled_from(['none', 'none', 'some']),
+                                  # value pattern of the coefficients: independent draws; the sine term of an (n, |m|) repeats the cosine term
+                                  # exactly (a term clocked by 45/m degrees); one constant for every term; every coefficient 1
+                                  'values': st.sampled_from(['random', 'random', 'mirror', 'mirror', 'constant', 'ones']),
                                   'pts': point_spec(DMAX[tier]).filter(lambda s: s[0] == 'array'),
                                   'pairs_as': st.sampled_from(['tuples', 'tuples', 'lists', 'ndarray']), 'coefs_as': st.sampled_from(['list', 'list', 'array', 'tuple']),
                                   'udtype': st.sampled_from(['float64', 'float64', 'float64', 'float32']), 'layout': U.layouts, 'seed': U.seeds, 'wexp': wexps})
@@ -475,6 +562,19 @@ def _deep(v):
     return float(v)
 
 
+def _twin_labels(twins, lens):
+    """labels for the azimuthal orders whose cosine and sine coefficient vectors are equal element by element (non-empty); m = 1 with more
+    than three terms is where the evaluator applies Forbes' extra term of Eq. B.7 to each family"""
+    if not twins:
+        return ['equal-families:none']
+    out = ['equal-families:some']
+    if 1 in twins:
+        out.append('equal-families:m=1:len>=4' if lens[1] >= 4 else 'equal-families:m=1:len<4')
+    if any(m > 1 for m in twins):
+        out.append('equal-families:m>1')
+    return out
+
+
 def check_q2d(case, ctx):
     """Q2d_nm_c_to_a_b obeys its structural laws and compute_z_zprime_Q2d(packed) sag == sum c * Q2d(n, m, u, t); neither routine
     modifies what it is given, and the packed vectors give the same surface when used again."""
@@ -486,6 +586,15 @@ def check_q2d(case, ctx):
     cs = np.where(np.abs(cs) < 0.05, 0.05, cs)
     if case['zero'] == 'some' and len(nms) > 1:
         cs[r.integers(0, 2, len(nms)).astype(bool)] = 0.0
+    values = case.get('values', 'random')
+    if values != 'random':
+        first = {}
+        for i, (n, m) in enumerate(nms):        # (n, -|m|) carries exactly the value of (n, |m|), zeros included
+            cs[i] = cs[first.setdefault((n, abs(m)), i)]
+        if values == 'ones':
+            cs = np.where(cs != 0, 1.0, 0.0)
+        elif values == 'constant':
+            cs = np.where(cs != 0, float(np.round(r.uniform(0.1, 2.0), 2)), 0.0)
     udtype, layout = case.get('udtype', 'float64'), case.get('layout', 'C')
     e = wexp_of(case, single=udtype == 'float32')
     cs = [float(c) for c in cs * 10.0 ** e]
@@ -505,8 +614,8 @@ def check_q2d(case, ctx):
     if sin_m - cos_m:
         cls += ':sin-only-order'
     ctx.nt(bool(lonely) or any(v == 1 for v in lens.values()) or case['zero'] == 'some' or np.ndim(u) != 1 or udtype != 'float64' or layout != 'C'
-           or pairs_as != 'tuples' or coefs_as != 'list' or e != 0)
-    ctx.label('families=' + fam, 'order-in-one-family' if lonely else 'orders-paired', 'ndim%d' % np.ndim(u),
+           or pairs_as != 'tuples' or coefs_as != 'list' or e != 0 or values != 'random')
+    ctx.label('families=' + fam, 'order-in-one-family' if lonely else 'orders-paired', 'ndim%d' % np.ndim(u), 'values:' + values,
               'has-len1-vector' if any(v == 1 for v in lens.values()) else 'no-len1-vector',
               'unequal-lengths' if any(lens.get(m) != lens.get(-m) for m in cos_m & sin_m) else 'equal-or-unpaired',
               'pairs_as:' + pairs_as, 'coefs_as:' + coefs_as, 'u:' + udtype, 'layout:' + layout,
@@ -543,6 +652,10 @@ def check_q2d(case, ctx):
                 ctx.require(v is not None and float(v) == w, 'Q2d_nm_c_to_a_b:entry:' + cls,
                             '%s[m=%d][n=%d] = %r, expected %r (nms=%r)' % (nm, m, n, v, w, nms))
 
+    twins = [i + 1 for i, (a_, b_) in enumerate(zip(ams, bms)) if len(a_) and _deep(a_) == _deep(b_)]
+    ctx.label(*_twin_labels(twins, {i + 1: len(a_) for i, a_ in enumerate(ams)}))
+    if twins:
+        cls += ':cosine-and-sine-vectors-equal'
     packed_before = _deep([cm0, ams, bms])
     u_before, t_before = snapshot(u), snapshot(t)
     res = _guard(ctx, cls, Q.compute_z_zprime_Q2d, cm0, ams, bms, u, t)
@@ -572,6 +685,92 @@ def check_q2d(case, ctx):
     cmp_sum(res2[0], want, mag, 'compute_z_zprime_Q2d:repeat:' + cls, 'the same packed vectors again, ' + what, rtol=rtol)
 
 
+# ---- Q2d: the radial Clenshaw sums of one azimuthal order, as documented entry points ------------------------------------
+def strat_q2d_radial(tier):
+    M = {'quick': 8, 'thorough': 16}[tier]
+    return st.fixed_dictionaries({'fn': st.sampled_from(['clenshaw_q2d', 'clenshaw_q2d', 'clenshaw_q2d_der']), 'm': st.one_of(st.sampled_from([1, 1, 2, 3]), st.integers(1, M)),
+                                  'coefs': coef_spec({'quick': 30, 'thorough': 60}[tier]), 'u': point_spec(DMAX[tier]).filter(lambda s: s[0] == 'array'),
+                                  'container': st.sampled_from(CONTAINERS), 'udtype': st.sampled_from(['float64', 'float64', 'float64', 'float32']),
+                                  'layout': U.layouts, 'ws': st.sampled_from(['none', 'zeros', 'zeros', 'junk', 'nan']),
+                                  'second': st.sampled_from(['reversed', 'same', 'same-object']), 'seed': U.seeds, 'wexp': wexps})
+
+
+def check_q2d_radial(case, ctx):
+    """u^m times the radial sum documented for clenshaw_q2d (.5 alphas[0], minus 2/5 alphas[3] for m = 1 with more than three terms;
+    for clenshaw_q2d_der read from its block [0]) == sum_n c_n Q2d(n, m, u, 0), without and with a caller-supplied alphas workspace that
+    is used for every call of the case; coefficients and coordinates are not modified."""
+    from prysm import polynomials as P
+    from prysm.polynomials import qpoly as Q
+    c0 = expand_coefs(case['coefs'], case['seed'], 1)
+    fn, m, udtype, layout, second = case['fn'], int(case['m']), case.get('udtype', 'float64'), case.get('layout', 'C'), case.get('second', 'reversed')
+    u = points(case['u'], case['seed'], 0.0, 1.0, 2, udtype, layout)
+    single = udtype == 'float32' or case['container'] == 'array-f32'
+    e = wexp_of(case, single=single, integer=case['container'] in ('int-list', 'array-int'))
+    arg, c = contain(c0 * 10.0 ** e, case['container'])
+    cls, pcls = coef_class(c), pt_class(case['u'])
+    # clenshaw_q2d assigns every row of its workspace; clenshaw_q2d_der leaves the rows of derivatives above the degree at their
+    # initial zero, so its workspace starts zeroed and is then re-used as it comes back
+    wsk = case.get('ws', 'none')
+    if fn == 'clenshaw_q2d_der' and wsk != 'none':
+        wsk = 'zeros'
+    ctx.nt(True)
+    ctx.label(fn, cls, pcls, 'm=1' if m == 1 else 'm=2,3' if m <= 3 else 'm>3', 'len=%s' % (len(c) if len(c) < 5 else ('5+' if len(c) < 13 else '13+')),
+              'container:' + case['container'], 'u:' + udtype, 'layout:' + layout, 'workspace:' + wsk, 'second:' + second, exp_label(e),
+              'B.7-term' if m == 1 and len(c) > 3 else 'no-B.7-term')
+    cls += ':m=1' if m == 1 else ''
+    if e:
+        cls += ':coefficients-1e%+d' % e
+    if wsk != 'none':
+        cls += ':alphas-workspace-' + wsk
+    usq = u * u
+    ud = f64(u)
+    shared = {}
+
+    def fast(carg):
+        kw = {}
+        if wsk != 'none':
+            if 'buf' in shared:
+                ctx.tally('workspace re-used', 1)
+            else:
+                shared['buf'] = workspace(wsk, ((2,) if fn == 'clenshaw_q2d_der' else ()) + (len(carg),) + np.shape(usq), usq.dtype)
+            kw['alphas'] = shared['buf']
+        al = _guard(ctx, cls, getattr(Q, fn), carg, m, usq, **kw)
+        want_shape = ((2,) if fn == 'clenshaw_q2d_der' else ()) + (len(carg),) + np.shape(usq)
+        ctx.require(np.shape(al) == want_shape, fn + ':alphas-shape', 'alphas has shape %s, expected %s' % (np.shape(al), want_shape))
+        if fn == 'clenshaw_q2d_der':
+            al = al[0]
+        S = 0.5 * np.asarray(al[0], dtype=np.float64)
+        if m == 1 and len(carg) > 3:
+            S = S - 2 / 5 * np.asarray(al[3], dtype=np.float64)
+        return np.asarray(ud, dtype=np.float64) ** m * S
+
+    def mode(n):
+        return P.Q2d(n, m, ud, np.zeros_like(ud))
+    u_before = snapshot(usq)
+    got = fast(arg)
+    ctx.require(same_values(arg, c), fn + ':argument-modified:coefficients', 'the coefficients %r became %r' % ([float(v) for v in c], arg))
+    unchanged(ctx, usq, u_before, fn + ':argument-modified:usq', 'the squared radial coordinate array')
+    want, mag = explicit_sum(ctx, mode, c, np.shape(u), single=single)
+    # the Clenshaw route forms sums whose partial terms are larger than the modes: the coefficient scale is the floor
+    mag = max(mag, float(np.sum(np.abs(c))))
+    rtol = 1e-3 if single else 1e-10
+    what = 'u^%d * radial sum of %s(%r, m=%d) [%s, u %s %s, workspace %s] vs sum c_n Q2d(n, %d, u, 0), u.shape=%s' % (
+        m, fn, [float(v) for v in c], m, case['container'], udtype, layout, wsk, m, np.shape(u))
+    cmp_sum(got, want, mag, '%s:%s' % (fn, cls), what, rtol=rtol)
+    if second == 'reversed':
+        arg2, c2 = contain(c[::-1] * 0.5, case['container'])
+    elif second == 'same':
+        arg2, c2 = contain(c, case['container'])
+    else:
+        arg2, c2 = arg, c
+    got2 = fast(arg2)
+    want2, mag2 = explicit_sum(ctx, mode, c2, np.shape(u), single=single)
+    cmp_sum(got2, want2, max(mag2, float(np.sum(np.abs(c2)))), '%s:second-call:%s' % (fn, cls), 'second call (%s coefficients), ' % second + what, rtol=rtol)
+    got3 = fast(arg)
+    cmp_sum(got3, want, mag, '%s:repeat:%s' % (fn, cls), 'the same coefficient object again, ' + what, rtol=rtol)
+    ctx.require(same_values(arg, c), fn + ':argument-modified:coefficients', 'the coefficients %r became %r after the third use' % ([float(v) for v in c], arg))
+
+
 def strat_q2d_direct(tier):
     N, M = {'quick': (12, 8), 'thorough': (30, 16)}[tier]
     vec = st.one_of(st.just(0), st.just(0), st.sampled_from([1, 1, 2]), st.integers(1, 6), st.integers(1, N))   # radial length, 0 = empty
@@ -579,7 +778,11 @@ def strat_q2d_direct(tier):
                                   'pts': point_spec(DMAX[tier]).filter(lambda s: s[0] == 'array'),
                                   'container': st.sampled_from(['list', 'list', 'array', 'array', 'tuple', 'view']),
                                   'udtype': st.sampled_from(['float64', 'float64', 'float64', 'float32']), 'layout': U.layouts,
-                                  'history': st.sampled_from(['none', 'none', 'single-first', 'other-coefs']), 'seed': U.seeds, 'wexp': wexps})
+                                  'history': st.sampled_from(['none', 'none', 'single-first', 'other-coefs']), 'seed': U.seeds, 'wexp': wexps,
+                                  # the sine table repeats the cosine table: equal values in separate objects, the same row objects in two outer
+                                  # lists, one table object given for both arguments; the m = 0 vector is the very object of the m = 1 cosine row
+                                  'share': st.sampled_from(['none', 'none', 'none', 'equal', 'same-rows', 'same-table', 'cm0-row']),
+                                  'values': st.sampled_from(['random', 'random', 'random', 'ones', 'constant'])})
 
 
 def check_q2d_direct(case, ctx):
@@ -589,14 +792,22 @@ def check_q2d_direct(case, ctx):
     from prysm.polynomials import qpoly as Q
     M = len(case['lens'])
     alens, blens = [int(v[0]) for v in case['lens']], [int(v[1]) for v in case['lens']]
+    share, values = case.get('share', 'none'), case.get('values', 'random')
+    if share in ('equal', 'same-rows', 'same-table'):
+        blens = list(alens)
     r = U.rng_of(case['seed'], 1)
     container, udtype, layout, history = case.get('container', 'list'), case.get('udtype', 'float64'), case.get('layout', 'C'), case.get('history', 'none')
 
     e = wexp_of(case, single=udtype == 'float32' or history == 'single-first')
 
+    const = float(np.round(r.uniform(0.1, 2.0), 2))
+
     def vec(n):
         c = r.uniform(-1, 1, n)
-        return [float(v) for v in np.where(np.abs(c) < 0.05, 0.05, c) * 10.0 ** e]
+        c = np.where(np.abs(c) < 0.05, 0.05, c)
+        if values != 'random':
+            c = np.full(n, 1.0 if values == 'ones' else const)
+        return [float(v) for v in c * 10.0 ** e]
 
     def wrap(v):
         if v is None or container == 'list':
@@ -605,19 +816,33 @@ def check_q2d_direct(case, ctx):
     cm0 = None if case['cm0'] < 0 else vec(int(case['cm0']))
     ams = [vec(n) for n in alens]
     bms = [vec(n) for n in blens]
+    if share in ('equal', 'same-rows', 'same-table'):
+        bms = [list(v) for v in ams]
+    if share == 'cm0-row' and M > 0 and cm0 is not None:
+        cm0 = list(ams[0])
+    elif share == 'cm0-row':
+        share = 'none'
     u = points(case['pts'], case['seed'], 0.0, 1.0, 2, udtype, layout)
     t = points(case['pts'], case['seed'], 0.0, 2 * np.pi, 3, udtype, layout)
     one_only = any((a == 0) != (b == 0) for a, b in zip(alens, blens))
     has1 = any(v == 1 for v in alens + blens) or (cm0 is not None and len(cm0) == 1)
     cls = ('a-empty' if any(a == 0 and b > 0 for a, b in zip(alens, blens)) else '') + \
           ('b-empty' if any(b == 0 and a > 0 for a, b in zip(alens, blens)) else '') or 'paired'
-    ctx.nt(one_only or has1 or np.ndim(u) != 1 or container != 'list' or udtype != 'float64' or layout != 'C' or history != 'none' or e != 0)
+    twins = [i + 1 for i in range(M) if alens[i] and ams[i] == bms[i]]
+    ctx.nt(one_only or has1 or np.ndim(u) != 1 or container != 'list' or udtype != 'float64' or layout != 'C' or history != 'none' or e != 0
+           or share != 'none' or values != 'random')
     ctx.label(cls, 'has-len1-vector' if has1 else 'no-len1-vector', 'cm0=%s' % ('None' if cm0 is None else ('empty' if not cm0 else 'given')),
               'M=0' if M == 0 else 'M>0', 'ndim%d' % np.ndim(u), 'container:' + container, 'u:' + udtype, 'layout:' + layout, 'history:' + history,
-              exp_label(e))
+              exp_label(e), 'share:' + share, 'values:' + values, *_twin_labels(twins, {i + 1: alens[i] for i in range(M)}))
     if e:
         cls += ':coefficients-1e%+d' % e
-    a_cm0, a_ams, a_bms = wrap(cm0), [wrap(v) for v in ams], [wrap(v) for v in bms]
+    if twins:
+        cls += ':cosine-and-sine-vectors-equal'
+    if share != 'none':
+        cls += ':' + {'equal': 'separate-objects', 'same-rows': 'same-row-objects', 'same-table': 'ams-is-bms', 'cm0-row': 'cm0-is-ams[0]'}[share]
+    a_ams = [wrap(v) for v in ams]
+    a_bms = a_ams if share == 'same-table' else list(a_ams) if share == 'same-rows' else [wrap(v) for v in bms]
+    a_cm0 = a_ams[0] if share == 'cm0-row' else wrap(cm0)
     if history == 'single-first':
         _guard(ctx, cls, Q.compute_z_zprime_Q2d, a_cm0, a_ams, a_bms, points(case['pts'], case['seed'], 0.0, 1.0, 2, 'float32', layout),
                points(case['pts'], case['seed'], 0.0, 2 * np.pi, 3, 'float32', layout))
@@ -837,6 +1062,19 @@ def check_lstsq(case, ctx):
         d2[bad] = other[bad]
         got2 = fit(d2)
         U.check_close(got2, got, 0.0, 'lstsq:marker-dependent:' + cls, 'same mask, different non-finite markers', atol=1e-12 * cscale)
+    # the data array is one of the modes - the very object that sits in the mode sequence: the fit is that unit vector.  Only where the
+    # finite samples of that mode are exactly the valid samples (no marked sample at all, or every mode non-finite at every marked one)
+    if k > 1 and ((not bad.any()) or mbad in ('nan', 'inf')):
+        jm = int(seed) % k
+        ctx.label('data-is-a-mode')
+        unit = np.zeros(k)
+        unit[jm] = 1.0
+        d_same = arg_modes[jm]
+        ds_before = np.array(d_same, copy=True)
+        got_same = fit(d_same)
+        unchanged(ctx, d_same, ds_before, 'lstsq:argument-modified:data-is-a-mode', 'the mode that was also given as data')
+        U.check_close(got_same, unit, 0.0, 'lstsq:data-is-a-mode:' + cls, 'lstsq(modes, modes[%d]) (the same array object) for %d %s modes %s, cond %.3g' % (
+            jm, k, mkind, shape, cond), atol=tol)
     # data that is not in the span: every finite sample must take part, and only those
     noise = U.rng_of(seed, 8).uniform(-1, 1, shape) + (1j * U.rng_of(seed, 88).uniform(-1, 1, shape) if cplx else 0.0)
     d3 = data + noise * dscale
@@ -922,6 +1160,7 @@ CLAUSES = [
     HypClause('qbfs_qcon_sums', strat_q1d, check_q1d, examples={'quick': 800, 'thorough': 3000}, shards={'quick': 1, 'thorough': 4}),
     HypClause('q2d_packed_sum', strat_q2d, check_q2d, examples={'quick': 600, 'thorough': 2500}, shards={'quick': 2, 'thorough': 4}),
     HypClause('q2d_direct_sum', strat_q2d_direct, check_q2d_direct, examples={'quick': 500, 'thorough': 2000}, shards={'quick': 1, 'thorough': 4}),
+    HypClause('q2d_radial_sums', strat_q2d_radial, check_q2d_radial, examples={'quick': 500, 'thorough': 2000}, shards={'quick': 1, 'thorough': 4}),
     HypClause('lstsq', strat_lstsq, check_lstsq, examples={'quick': 500, 'thorough': 2500}, shards={'quick': 2, 'thorough': 4}),
     HypClause('pvr_consumer', strat_pvr, check_pvr, examples={'quick': 80, 'thorough': 300}, shards={'quick': 2, 'thorough': 4}),
 ]
